@@ -240,6 +240,10 @@ func mutate(line []byte, g *Seg) []byte {
 		return line
 	case "oddhex", "nosep", "noterm":
 		return append(append([]byte{}, line[:g.At-1]...), line[g.At:]...)
+	case "nonhex2":
+		o := append([]byte{}, line...)
+		o[g.At-1], o[g.At] = byte(g.Ch), byte(g.Ch)
+		return o
 	default:
 		o := append([]byte{}, line...)
 		o[g.At-1] = byte(g.Ch)
@@ -283,6 +287,14 @@ func genExp(r *rand.Rand, id, maxLines, maxLen int) *Exp {
 		case 0, 1:
 			g.Kind, g.At = "oddhex", hexLo+r.Intn(hexHi-hexLo+1)
 		case 2, 3, 4:
+			if r.Intn(3) == 0 { // a whole byte replaced by two non-hex characters (control characters included)
+				c := byte(0)
+				for c == 0 || c == '\n' || c == ' ' || isHex(c) {
+					c = []byte{'\r', '\t', 0x0B, 0x7F, 0x80, 0xFF, byte(1 + r.Intn(255)), junk(r)}[r.Intn(8)]
+				}
+				g.Kind, g.At, g.Ch = "nonhex2", hexLo+2*r.Intn((hexHi-hexLo+1)/2), int(c)
+				break
+			}
 			g.Kind, g.At, g.Ch = "nonhex", hexLo+r.Intn(hexHi-hexLo+1), int(junk(r))
 			if r.Intn(3) == 0 { // prefer a first-nibble position beyond the first byte
 				g.At = hexLo + 2*r.Intn((hexHi-hexLo+1)/2)
